@@ -173,3 +173,12 @@ def c06_xla_implicit_like_symbol(site, w):
 def c06_xla_python_boolean_literal(site, w):
     """XLA client target: a boolean constant inside a compile-time constant expression is printed with Python's spelling (True / False)"""
     return site == "xla_client:constant-expression-not-evaluable" and any(s in w.get("error", "") for s in ("unbound constant name True", "unbound constant name False"))
+
+
+def c04_rule_changes_static_precision(site, w):
+    """mixed-precision graphs: rules that replace a node by one of its operands / a folded constant (x*1 -> x, 0+x -> x, select(const, a, b) -> a|b,
+    real/imag(complex(a, b)) -> a|b, constant folding typed like the first operand) do not preserve the node's promoted static type, so the
+    value is computed in another precision"""
+    if not (site.startswith("step:float:") and site.endswith(":type-change")):
+        return False
+    return bool(w.get("before_type")) and bool(w.get("after_type")) and w["before_type"] != w["after_type"]
